@@ -8,7 +8,7 @@ From Coq Require Import String.
 From Coq Require Import List Ascii ZArith Bool Lia.
 From CGV Require Import Base.PyBase Base.PyVal Base.NxGraph Dialect.DialectImpl
      Reader.ReaderImpl Reader.Grammar Reader.ReaderLemmas Reader.Lin Reader.ReaderSim Reader.ReaderMult Reader.ReaderAst
-     Reader.ReaderWf Reader.UnitsDefs Reader.ReaderUnit Reader.ReaderLast Reader.ReaderX Reader.ReaderXAst Reader.ReaderG2 Reader.ReaderG2Ast.
+     Reader.ReaderWf Reader.UnitsDefs Reader.ReaderUnit Reader.ReaderLast Reader.ReaderX Reader.ReaderXAst Reader.ReaderG2 Reader.ReaderG2Ast Reader.ReaderCheck.
 Import ListNotations.
 
 Notation rgP := (rg_item true true).
@@ -239,3 +239,86 @@ Proof.
   now rewrite (expand_nodes_toks fo _ Hmp).
 Qed.
 Print Assumptions reader_units_expand_wf.
+
+(** ** the side condition does not depend on the float oracle beyond the names: what the check's class
+    function tests ([ReaderCheck.units_test], oracle "no float") is the theorem's hypothesis for every
+    oracle under which the AST is well formed *)
+Definition g2seg_names (s : g2seg) : list pystr :=
+  match s with G2Plain x => [x_name x] | G2Unit u _ => u_name u :: map bn_name (u_body u) end.
+Lemma body_ok_names f1 f2 : forall body i1 i2, body_ok f1 i1 body = true -> forallb (name_ok f2) (map bn_name body) = true ->
+  body_ok f2 i2 body = true.
+Proof.
+  induction body as [|b r IH]; intros i1 i2 H Hn; [reflexivity|]. cbn [body_ok map forallb] in *.
+  apply andb_prop in H as [H Hr]. apply andb_prop in H as [_ Hs]. apply andb_prop in Hn as [Hn1 Hn2].
+  now rewrite Hn1, Hs, (IH _ _ Hr Hn2).
+Qed.
+Lemma g2seg_ok_names f1 f2 s : g2seg_ok f1 s = true -> forallb (name_ok f2) (g2seg_names s) = true -> g2seg_ok f2 s = true.
+Proof.
+  destruct s as [x|u cs]; cbn [g2seg_ok g2seg_names forallb]; intros H Hn.
+  - rewrite andb_true_r in Hn. unfold xlin_ok, lin_ok in *. cbn [xbase l_name l_rings l_mult l_close l_bond] in *.
+    apply andb_prop in H as [H H3]. apply andb_prop in H as [H H2]. apply andb_prop in H as [H H1c]. apply andb_prop in H as [H H1b].
+    apply andb_prop in H as [_ H1a]. rewrite Hn, H1a, H1b. cbn [andb]. now rewrite H2, H3.
+  - apply andb_prop in Hn as [Hn1 Hn2]. apply andb_prop in H as [H H3]. apply andb_prop in H as [H H2]. rewrite H2, H3, !andb_true_r.
+    unfold gunit_ok in *. apply andb_prop in H as [H G6]. apply andb_prop in H as [H G5]. apply andb_prop in H as [H G4].
+    apply andb_prop in H as [H G3]. apply andb_prop in H as [_ G2].
+    now rewrite Hn1, G2, (body_ok_names f1 f2 _ _ _ G3 Hn2), G4, G5, G6.
+Qed.
+Definition g2names (l : list g2seg) : list pystr := flat_map g2seg_names l.
+Lemma g2wrap_names a l : g2names (g2wrap a l) = g2names l.
+Proof.
+  destruct l as [|x t]; [reflexivity|]. destruct (g2wrap_shape a x t) as (pre & z & E & ->).
+  assert (E1 : g2names (g2set_open x :: t) = g2names (x :: t)) by (destruct x; reflexivity).
+  rewrite <- E1, E. unfold g2names. rewrite !flat_map_app. cbn [flat_map]. now destruct z.
+Qed.
+Definition pnames (p : pystr -> bool) (c : list item) : bool := forallb (fun it => p (i_name it)) (flat_chain c).
+Lemma pnames_heads p c : pnames p c = true -> forallb p (map i_name c) = true.
+Proof.
+  unfold pnames. induction c as [|[n r m b brs] t IH]; intros H; [reflexivity|].
+  rewrite flat_chain_cons in H. cbn [forallb i_name] in H. apply andb_prop in H as [H1 H2]. rewrite forallb_app in H2. apply andb_prop in H2 as [_ H2].
+  cbn [map forallb i_name]. now rewrite H1, (IH H2).
+Qed.
+Definition item_nm (p : pystr -> bool) (it : item) : Prop := pnames p [it] = true -> forallb p (g2names (g_item it)) = true.
+Lemma chain_nm p c : Forall (item_nm p) c -> pnames p c = true -> forallb p (g2names (g_chain c)) = true.
+Proof.
+  induction 1 as [|[n r m b brs] t Hx _ IH]; intros H; [reflexivity|].
+  unfold pnames in *. rewrite flat_chain_cons in H. cbn [forallb] in H. apply andb_prop in H as [H1 H2]. rewrite forallb_app in H2.
+  apply andb_prop in H2 as [H2 H3]. unfold g_chain, g2names. cbn [flat_map]. rewrite flat_map_app, forallb_app.
+  fold (g_chain t). fold (g2names (g_chain t)). rewrite (IH H3), andb_true_r. apply Hx.
+  unfold pnames. rewrite flat_chain_cons. cbn [forallb flat_chain flat_map]. rewrite app_nil_r. now rewrite H1, H2.
+Qed.
+Lemma ast_nm p : forall it, item_nm p it.
+Proof.
+  apply (item_ind2 (item_nm p) (fun br => Forall (item_nm p) (b_chain br))).
+  - intros n r m b brs Hbrs H. unfold pnames in H. rewrite flat_chain_cons in H. cbn [forallb i_name flat_chain flat_map] in H.
+    rewrite app_nil_r in H. apply andb_prop in H as [Hn Hb]. rewrite forallb_flat_map in Hb.
+    rewrite g_item_eq. unfold g2names. cbn [flat_map g2seg_names node_x x_name forallb app]. rewrite Hn. cbn [andb].
+    fold (g2names (g_branches n brs b)). generalize b as pending.
+    induction Hbrs as [|[c bm a] tl Hc _ IHb]; intros pending; [reflexivity|].
+    cbn [forallb b_chain] in Hb. apply andb_prop in Hb as [Hb1 Hb2]. cbn [b_chain] in Hc.
+    cbn [g_branches]. destruct bm as [[ms ds]|].
+    + unfold g2names. cbn [flat_map g2seg_names mk_unit u_name u_body forallb app]. fold (g2names (g_branches n tl a)).
+      rewrite Hn, forallb_app, (IHb Hb2). rewrite map_map. change (map (fun x : item => bn_name (bnode_of x)) c) with (map i_name c). rewrite (pnames_heads p c Hb1). reflexivity.
+    + unfold g2names. rewrite flat_map_app, forallb_app. fold (g2names (g2wrap a (g_chain c))). fold (g2names (g_branches n tl a)).
+      rewrite g2wrap_names, (chain_nm p c Hc Hb1), (IHb Hb2). reflexivity.
+  - intros c bm a Hc. exact Hc.
+Qed.
+Lemma wf_names fo a : wf fo a = true -> pnames (name_ok fo) a = true.
+Proof.
+  unfold wf, pnames. intros H. apply andb_prop in H as [H _]. apply andb_prop in H as [H _]. apply andb_prop in H as [_ H].
+  rewrite forallb_forall in *. intros it Hin. specialize (H it Hin). unfold item_ok in H.
+  apply andb_prop in H as [H _]. apply andb_prop in H as [H _]. now apply andb_prop in H as [H _].
+Qed.
+Theorem units_ok_oracle f1 fo a : wf fo a = true -> units_ok f1 a = true -> units_ok fo a = true.
+Proof.
+  intros Hwf H. unfold units_ok, g2segs_ok in *. apply andb_prop in H as [H Hg]. apply andb_prop in Hg as [Hok Htr].
+  rewrite H, Htr, andb_true_r. cbn [andb].
+  assert (Hall : Forall (item_nm (name_ok fo)) a) by (apply Forall_forall; intros; apply ast_nm).
+  pose proof (chain_nm (name_ok fo) a Hall (wf_names fo a Hwf)) as Hn. unfold g2names in Hn. rewrite forallb_flat_map in Hn.
+  rewrite forallb_forall in *. intros s Hin. apply (g2seg_ok_names f1 fo s (Hok s Hin) (Hn s Hin)).
+Qed.
+(** in the check's own terms: every well-formed AST that [class_C05] exempts from the classes because of
+    [units_test] is read as its longhand *)
+Theorem reader_units_test_sound fo braces a : wf fo a = true -> units_test a = true ->
+  read_cgsmiles fo (print braces a) = read_cgsmiles fo (print braces (expand a)).
+Proof. intros Hwf Ht. apply reader_units_expand_wf; [|exact Hwf]. now apply (units_ok_oracle (fun _ => None)). Qed.
+Print Assumptions reader_units_test_sound.
